@@ -284,7 +284,21 @@ func randomCase(r *vh.Rand, stream bool, maxOps int) *Case {
 			if r.Chance(1, 4) {
 				t = "*"
 			}
-			c.Ops = append(c.Ops, Op{K: "sub", Now: g.tick(), Tgt: t})
+			if r.Chance(1, 2) {
+				c.Ops = append(c.Ops, Op{K: "sub", Now: g.tick(), Tgt: t})
+			} else { // with the initial walk; often a Remove lands between registration and walk
+				o := Op{K: "subwalk", Now: g.tick(), Tgt: t}
+				switch r.Pick(3, 2, 3) {
+				case 0:
+					o.Rm = t
+					if t == "*" {
+						o.Rm = g.target()
+					}
+				case 1:
+					o.Rm = g.target()
+				}
+				c.Ops = append(c.Ops, o)
+			}
 		}
 	}
 	if stream { // at least one subscriber, early
@@ -306,7 +320,8 @@ func ruleText() string {
 		"seeded random histories of 3..12 calls over 2..4 target names sharing the index paths a/b a/c d[k]/e f g/h/i a/b/c (+origin o) " +
 		"(single/multi/atomic/delete/empty notifications, wildcard deletes, metadata written from outside, unknown targets, " +
 		"Reset/Remove/Add/Sync/Connect/ConnectError/UpdateMetadata/UpdateSize, monotone clock, future threshold in {0,2}); " +
-		"the same with 1..4 STREAM subscribers (single target or *) attached at random points. " +
+		"the same with 1..4 STREAM subscribers (single target or *) attached at random points, half of them with the initial walk and a " +
+		"Cache.Remove forced between registration and walk (hook process:before-walk). " +
 		"distinct = distinct (config, targets, calls); non-trivial = some Reset/Remove hits a target holding a non-metadata leaf " +
 		"while another target holds one too, or a subscriber received a response"
 }
